@@ -10,10 +10,21 @@ wt = tempfile.mkdtemp(prefix='confirm_', dir='/tmp')
 os.rmdir(wt)
 run = lambda cmd, **kw: subprocess.run(cmd, shell=True, capture_output=True, text=True, **kw)
 assert run('git -C /repo worktree add -q --detach %s HEAD' % wt).returncode == 0
-env = dict(os.environ, PYTHONPATH=wt)
+# demos may pin the path of the tree they were written in: they are stored with /tmp/pedal_tree in its place, a
+# symbolic link that whoever runs a demo points at the tree under test (PYTHONPATH=/tmp/pedal_tree)
+LINK = '/tmp/pedal_tree'
+agent_wt = os.path.dirname(os.path.abspath(out.rstrip('/')))
+run('ln -sfn %s %s' % (wt, LINK))
+env = dict(os.environ, PYTHONPATH=LINK)
 try:
     patch = os.path.join(out, 'mutant%s.diff' % k)
-    demo = os.path.join(out, 'demo%s.py' % k)
+    demo_src = open(os.path.join(out, 'demo%s.py' % k)).read()
+    # ... or derive it from their own location (<tree>/out/demo.py)
+    own_location = "os.path.dirname(os.path.dirname(os.path.abspath(__file__)))"
+    pinned = agent_wt in demo_src or own_location in demo_src
+    demo_src = demo_src.replace(own_location, repr(LINK))
+    demo = os.path.join(tempfile.mkdtemp(prefix='demo_', dir='/tmp'), 'demo.py')
+    open(demo, 'w').write(demo_src.replace(agent_wt, LINK).replace('realpath(pedal.__file__)', 'abspath(pedal.__file__)'))
     r0 = run('/venv/bin/python %s' % demo, cwd=wt, env=env)
     ap = run('git apply %s' % patch, cwd=wt)
     assert ap.returncode == 0, ap.stderr
@@ -21,7 +32,7 @@ try:
     t = run('/venv/bin/python -m pytest -q -p no:cacheprovider --timeout=900 2>&1 | tail -1', cwd=wt, env=env)
     r1 = run('/venv/bin/python %s' % demo, cwd=wt, env=env)
     ok = (r0.returncode == 0 and r1.returncode != 0 and '493 passed' in t.stdout and '10 failed' in t.stdout
-          and imp.startswith(wt))
+          and (imp.startswith(wt) or imp.startswith(LINK)))
     print(name, 'demo clean rc=%d, demo mutated rc=%d, tests: %s, import: %s => %s' % (
         r0.returncode, r1.returncode, t.stdout.strip(), imp, 'CONFIRMED' if ok else 'REJECTED'))
     if ok:
@@ -31,6 +42,8 @@ try:
         shutil.copy(demo, os.path.join(d, 'demo.py'))
         note = open(os.path.join(out, 'note%s.txt' % k)).read() if os.path.exists(os.path.join(out, 'note%s.txt' % k)) else ''
         json.dump({'property': prop, 'needs_to_manifest': note.strip(),
+                   'how_to_run_demo': ('ln -sfn <tree under test> /tmp/pedal_tree; PYTHONPATH=/tmp/pedal_tree /venv/bin/python demo.py'
+                                       if pinned else 'PYTHONPATH=<tree under test> /venv/bin/python demo.py'),
                    'confirmed': {'base_commit': run('git -C /repo rev-parse --short HEAD').stdout.strip(),
                                  'demo_on_clean_tree': 'exit %d' % r0.returncode,
                                  'demo_with_change': 'exit %d: %s' % (r1.returncode, (r1.stdout + r1.stderr)[-300:]),
@@ -41,3 +54,4 @@ try:
                   open(os.path.join(d, 'meta.json'), 'w'), indent=1)
 finally:
     run('git -C /repo worktree remove --force %s' % wt)
+    shutil.rmtree(os.path.dirname(demo), ignore_errors=True)
